@@ -131,6 +131,46 @@ class Resolver:
         for name, c in counts.items():
             if c == 1 and name in cands and name not in params and name not in set(keep) and name not in mutated:
                 self.defs[name] = cands[name]
+        # `if c: x = A else: x = B`  ==  `x = A if c else B`;  `x = B` ... `if c: x = A`  ==  the same:
+        # a local with exactly these two bindings is its conditional expression
+        def _only_assign(block: list[ast.stmt], name: str) -> ast.expr | None:
+            hits = [st for st in block if isinstance(st, ast.Assign) and len(st.targets) == 1 and isinstance(st.targets[0], ast.Name) and st.targets[0].id == name]
+            return hits[0].value if len(hits) == 1 else None
+
+        def _blocks(node: ast.AST):
+            for fld in ("body", "orelse", "finalbody"):
+                b = getattr(node, fld, None)
+                if isinstance(b, list) and b and isinstance(b[0], ast.stmt):
+                    yield b
+            for h in getattr(node, "handlers", []) or []:
+                yield h.body
+
+        two = {n for n, c in counts.items() if c == 2 and n not in params and n not in set(keep) and n not in mutated}
+        if two:
+            for node in [fn, *walk_own(fn)]:
+                for block in _blocks(node):
+                    for idx, st in enumerate(block):
+                        if not isinstance(st, ast.If):
+                            continue
+                        for name in list(two):
+                            a = _only_assign(st.body, name)
+                            if a is None:
+                                continue
+                            b = _only_assign(st.orelse, name) if st.orelse else None
+                            if b is None and not st.orelse:
+                                # default before the `if` in the same block, not read in between
+                                prev = [p for p in block[:idx] if isinstance(p, ast.Assign) and len(p.targets) == 1 and isinstance(p.targets[0], ast.Name) and p.targets[0].id == name]
+                                if len(prev) == 1:
+                                    k = block.index(prev[0])
+                                    between = block[k + 1 : idx]
+                                    used = any(isinstance(x, ast.Name) and x.id == name for p in between for x in ast.walk(p)) or any(isinstance(x, ast.Name) and x.id == name for x in ast.walk(st.test))
+                                    if not used:
+                                        b = prev[0].value
+                            if b is None:
+                                continue
+                            e = ast.IfExp(test=clone(st.test), body=clone(a), orelse=clone(b))
+                            self.defs[name] = ast.fix_missing_locations(ast.copy_location(e, st))
+                            two.discard(name)
         self.depth = depth
 
     def expr(self, e: ast.expr, depth: int | None = None) -> ast.expr:
